@@ -6,6 +6,7 @@ from ..deck import Deck
 from ..runner import Scn, verdict, sha, Vacuous
 
 ID = 'C16'
+DECORATE = True
 LEVEL = 'model_checking'
 RULE = ('E1 enumeration (complete product): flag in {none, *, +} on a plane and on a sphere that bound converted '
         'cells, on a plane used only by an importance-0 cell, on an unused plane and on a plane of a universe '
